@@ -184,7 +184,17 @@ static void body_invalid(Tape &t, Ctx &c) {
 		desc = fmt("level %d with level_buf_size %u", lvl, d.s->level_buf_size); break;
 	}
 	}
-	c.fpmix(stateless); c.fpmix(what); c.fpmix(mix64(d.s->level) ^ flush); c.fpmix(d.s->level_buf_size); c.fpmix(len);
+	// half of the stateful cases install a preset dictionary first (valid level at that moment): validation must not depend on the history state
+	bool with_dict = !stateless && t.coin();
+	if (with_dict) {
+		uint32_t lv_now = d.s->level; uint8_t *lb_now = d.s->level_buf; uint32_t ls_now = d.s->level_buf_size;
+		d.s->level = 0; // set_dict hashes with the current level; use one that needs no buffer
+		int rcd = isal_deflate_set_dict(d.s, data.data(), (uint32_t) std::min<size_t>(len, 500));
+		d.s->level = lv_now; d.s->level_buf = lb_now; d.s->level_buf_size = ls_now;
+		if (rcd != COMP_OK) throw Skip("dictionary not accepted");
+		desc += " after isal_deflate_set_dict";
+	}
+	c.fpmix(stateless); c.fpmix(what); c.fpmix(mix64(d.s->level) ^ flush); c.fpmix(d.s->level_buf_size); c.fpmix(len); c.fpmix(with_dict);
 	// keep the modified fields: call() re-applies only the pointers/flush
 	igz::CallInfo ci = d.call(data.data(), len, len + 1024, flush, true);
 	std::string where = fmt("%s with %s", stateless ? "isal_deflate_stateless" : "isal_deflate", desc.c_str());
